@@ -1,5 +1,122 @@
-"""Thorough tier: in-memory mutants and benign twins of the current files (see DESIGN section 6)."""
+"""Thorough tier: in-memory mutants and benign twins of the *current* files.
+
+Every rule module may define
+    MUTANTS = [M(name, file, old, new, rules=[...])]   # must be flagged by one of `rules`
+    TWINS   = [M(name, file, old, new)]                # behaviour-preserving: must stay silent
+`old`/`new` are source fragments; a variant whose `old` fragment does not occur
+exactly once in today's file is *skipped* (the tree moved on), never failed.
+Variants are byte-compiled (no execution) and analysed through Index(overrides=...),
+so nothing is written to disk.
+"""
+import os
+
+from .index import Index, AnchorVanished
+from .report import Run
+from . import rules as rules_pkg
+
+
+class M(object):
+    def __init__(self, name, file, old, new, rules=None, count=1):
+        self.name, self.file, self.old, self.new, self.rules, self.count = name, file, old, new, rules, count
+
+    def apply(self, root):
+        path = os.path.join(root, self.file)
+        try:
+            with open(path, 'rb') as f:
+                s = f.read().decode('utf-8')
+        except OSError:
+            return None
+        if isinstance(self.old, (list, tuple)):
+            pairs = list(zip(self.old, self.new))
+        else:
+            pairs = [(self.old, self.new)]
+        for o, n in pairs:
+            if s.count(o) != self.count:
+                return None
+            s = s.replace(o, n)
+        try:
+            compile(s, self.file, 'exec')
+        except SyntaxError:
+            return None
+        return s
+
+
+class _Res(object):
+    def __init__(self, findings, undecided, error=None):
+        self.findings, self.undecided, self.error = findings, undecided, error
+
+
+class _F(object):
+    def __init__(self, key, rule):
+        self.key, self.rule = key, rule
+
+
+def _work(args):
+    prop, root, overrides = args
+    try:
+        idx = Index(root, overrides=overrides)
+        r = Run(prop, idx, 'quick')
+        rules_pkg.run_rules(r)
+        return ([(f.key, f.rule) for f in r.findings], [dict(u) for u in r.undecided], None)
+    except AnchorVanished as e:
+        return ([], [], str(e))
+
+
+def _analyse_many(jobs):
+    """jobs: [(prop, root, overrides)] -> [_Res] (16-wide, fork; falls back to serial)."""
+    out = None
+    if len(jobs) > 2:
+        try:
+            import multiprocessing as mp
+            from concurrent.futures import ProcessPoolExecutor
+            with ProcessPoolExecutor(max_workers=min(16, len(jobs)), mp_context=mp.get_context('fork')) as ex:
+                out = list(ex.map(_work, jobs))
+        except Exception:
+            out = None
+    if out is None:
+        out = [_work(j) for j in jobs]
+    return [_Res([_F(k, r) for k, r in f], u, e) for f, u, e in out]
 
 
 def run_for(run, root):
-    run.selftest = dict(mutants=0, mutants_flagged=0, benign_variants=0, benign_silent=0, note='no operators registered yet')
+    mod = rules_pkg.load(run.prop)
+    mutants = getattr(mod, 'MUTANTS', [])
+    twins = getattr(mod, 'TWINS', [])
+    base_keys = set(f.key for f in run.findings)
+    base_und = len(run.undecided)
+    st = dict(mutants=0, mutants_flagged=0, mutants_skipped=0, benign_variants=0, benign_silent=0,
+              benign_skipped=0, failures=[], flagged_by={})
+    jobs, meta = [], []
+    for kind, lst in (('mutant', mutants), ('twin', twins)):
+        for m in lst:
+            src = m.apply(root)
+            if src is None:
+                st['mutants_skipped' if kind == 'mutant' else 'benign_skipped'] += 1
+                continue
+            jobs.append((run.prop, root, {m.file: src}))
+            meta.append((kind, m))
+    for (kind, m), r in zip(meta, _analyse_many(jobs)):
+        if r.error:
+            st['failures'].append('%s %s: index failed: %s' % (kind, m.name, r.error))
+            continue
+        new = [f for f in r.findings if f.key not in base_keys]
+        if kind == 'mutant':
+            st['mutants'] += 1
+            hit = [f for f in new if not m.rules or f.rule in m.rules]
+            if hit:
+                st['mutants_flagged'] += 1
+                st['flagged_by'][m.name] = sorted(set(f.rule for f in hit))
+            else:
+                st['failures'].append('mutant %s not flagged by %s (new findings: %s; undecided: %s)' % (
+                    m.name, m.rules or 'any rule', sorted(set(f.rule for f in new)), [u['what'][:80] for u in r.undecided[:2]]))
+        else:
+            st['benign_variants'] += 1
+            if not new and len(r.undecided) <= base_und:
+                st['benign_silent'] += 1
+            else:
+                st['failures'].append('benign twin %s raised %s %s' % (m.name, [f.key for f in new][:3], [u['what'][:80] for u in r.undecided[:2]]))
+    run.selftest = st
+    for f in st['failures']:
+        run.undecide('SELFTEST', '-', f)
+    run.notes.append('selftest: %d/%d mutants flagged (%d skipped), %d/%d benign twins silent (%d skipped)' % (
+        st['mutants_flagged'], st['mutants'], st['mutants_skipped'], st['benign_silent'], st['benign_variants'], st['benign_skipped']))
